@@ -26,16 +26,19 @@ THEOREMS = {"Proofs.C16": ["VerifModel.C16." + t for t in [
     "C16_def_discrimination", "C16_def_roc_point", "C16_def_roc", "C16_roc_endpoints", "C16_def_pithist",
     "C16_pithist_bar_position", "C16_def_hist", "C16_def_freq", "C16_def_cond", "C16_def_performance",
     "C16_def_error", "C16_def_standard", "C16_def_bsdecomp", "C16_bsCases",
-    "C16_def_taylor"]]}
+    "C16_def_taylor",
+    "C16_fill_vertices", "C16_fill_no_nan", "C16_fill_length", "C16_fill_complete", "C16_fill_one_sided", "C16_def_fill",
+    "C16_obsfcst_bands"]]}
 TRUSTED_BASE = [
     "Lean 4.33 kernel; axioms propext, Classical.choice, Quot.sound only",
     "Spec/Diagram.lean: my reading of each diagram's defining statistic (Wilks; Taylor 2001; Roebber 2009; Murphy 1973; "
     "verif help texts), and of 'binned range' = [first edge, last edge]",
     "Model/Diagram.lean is hand-written from output.py / metric.py / util.bin and tied to the code only by the "
     "correspondence stream diag.artists (differential testing, as good as the inputs it sees)",
-    "the harness: tagging of Axes.plot/bar/scatter calls by their verif caller, the per-diagram rule that separates data "
-    "series from decoration (diaglib.select), read-back of Line2D/Rectangle/PathCollection data from the live figure at "
-    "Output._save_plot; that matplotlib turns these artists into the picture is trusted",
+    "the harness: tagging of Axes.plot/bar/scatter/fill calls by their verif caller, the per-diagram rule that separates data "
+    "series from decoration (diaglib.select), read-back of Line2D/Rectangle/PathCollection/Polygon data from the live figure at "
+    "Output._save_plot; that matplotlib turns these artists into the picture is trusted; a Polygon's closing vertex "
+    "(matplotlib repeats the first one) is removed by comparing the stored vertex count with the length of the call's argument",
     "the valid cases handed to the model are those Data.get_scores returns (C01-C04's subject); the oracle recomputes "
     "them from the raw arrays as 'every field finite in every input'",
     "IEEE rounding (tolerance 1e-9 relative; 1e-6 for float32 ensemble probabilities and for sin(arccos r), "
@@ -54,7 +57,10 @@ ASSUMPTIONS = [
     "edges are float linspace/percentile: not modelled, not checked); performance's potential curves (-simple off) not checked",
     "oracle only (no Lean model): " + ", ".join(ORACLE_ONLY),
     "NOT covered at all: " + ", ".join(UNMODELLED) + "; -x for taylor/performance/bsdecomp/qq/scatter only leadtime/location; "
-    "-agg other than mean; -acc; -hist/-sort only for obs and fcst; obsfcst/standard with -x none (bar graph); meteo only the lines",
+    "-agg other than mean; -acc; -hist/-sort only for obs and fcst; obsfcst/standard with -x none (bar graph); of the users of "
+    "util.fill only the bands of obsfcst -q and meteo are read back from a diagram (the reliability confidence / no-skill areas "
+    "and the timeseries bands are decoration here; util.fill itself is checked directly); a band vertex is 'missing' iff NaN "
+    "(an infinite value is a vertex); equal lengths of x, lower, upper",
     "discrimination bar x-positions are layout (checked: bar centre inside its bin, default edges only); with one input the "
     "'observed' bar of the first bin starts 0.01 left of 0 and with non-uniform -q edges bars leave their bins (cosmetic: "
     "mpl.bar align='center')",
@@ -65,9 +71,23 @@ RULE = ("diag.artists: for each of 28 diagrams random datasets (deterministic / 
         "Output.plot is run in-process, the artists read back and compared with (a) the Lean model on the vectors "
         "Data.get_scores returns and (b) an independent recomputation from the raw arrays; diag.cli: the same through "
         "verif.driver.run on text files; diag.bin: util.bin on random edges/values; an op is non-trivial if the figure "
-        "holds at least one finite data point")
+        "holds at least one finite data point. diag.fill: the real verif.util.fill on a fresh Agg figure, the Polygon read back "
+        "from the axes and compared exactly with Model.fillPolygon and with the rule written out in judge_fill: every "
+        "missingness pattern of (lower, upper) for n <= 3 (quick: 85) / n <= 4 (thorough: 341), every pattern with a NaN in x for "
+        "n <= 2 (52), 150 / 1500 random envelopes of length 4-14 with independent NaNs in lower, upper and x, unsorted x, "
+        "+-inf, lower == upper. The band polygons of obsfcst -q (2 or 3 levels, also in descending order) and meteo are read "
+        "back in diag.artists / diag.cli too, on 16 / 130 extra datasets per diagram (and a third of diag.cli) whose quantile "
+        "columns lose whole lead times (times, locations) independently, so that the two quantile lines are missing at different x. "
+        "diag.sequence: 2-3 diagrams drawn one after the other from ONE verif.data.Data object through the real verif.output "
+        "classes (every ordered pair, also a diagram twice, of qq/scatter/freq, cond/error/taylor, hist/sort without -x — "
+        "each group fetches one get_scores cache key: ((Obs, Fcst), input, none, None), (.., none, 0), ((field,), input, none, None) "
+        "— 64 in quick, 384 in thorough; 30 / 300 random sequences over the det menu (+ performance, obsfcst, standard, "
+        "against, change, droc) and the prob menu with the usual options, prob diagrams on a common threshold); each diagram's artists are compared with "
+        "the Lean model answering it as if it were alone, with the documented series, and with the same diagram drawn from a "
+        "freshly built Data object (any difference: kind history-dependence)")
 EXHAUSTIVE = {"quick": False, "thorough": False}
-EXHAUSTIVE_NOTE = "random datasets; the partition / count / order theorems are unbounded"
+EXHAUSTIVE_NOTE = ("random datasets; the partition / count / order / band-polygon theorems are unbounded; diag.fill is "
+                   "exhaustive over the missingness patterns of two envelopes of up to 3 (quick) / 4 (thorough) points")
 LEVEL_TEXT = ("Lean theorems: for the bin convention each diagram actually uses, every value of the binned range "
               "[first edge, last edge] lies in exactly one bin (full statements: PitHist, Reliability, InvReliability, "
               "Discrimination, IgnContrib, Scatter, util.bin — half-open bins, the last one closed; SpreadSkill — bins "
@@ -75,7 +95,13 @@ LEVEL_TEXT = ("Lean theorems: for the bin convention each diagram actually uses,
               "bars span their bins; one series (group) per input in input "
               "order; the modelled series of 19 diagrams equal their defining statistics (reliability, invreliability, "
               "discrimination, roc incl. end points, qq, sort, obsfcst, marginal, hist, freq, cond, pithist heights, "
-              "spreadskill, bsdecomp, performance, taylor, error incl. the sign of the bias, standard mae/bias/rmse). The "
+              "spreadskill, bsdecomp, performance, taylor, error incl. the sign of the bias, standard mae/bias/rmse); the shaded "
+              "band of util.fill (all inputs): its vertices are exactly the valid (x, lower) points in order followed by the valid "
+              "(x, upper) points in reverse order, each envelope filtered on its own NaNs; no vertex has a NaN coordinate; 2n "
+              "vertices when nothing is missing; a point missing in one envelope only keeps its other vertex; it is the Spec's "
+              "band on Option-valued samples; obsfcst's bands are such polygons between the i-th and the i-th last quantile line. The "
+              "model is a pure function of the dataset: a diagram drawn after others from the same Data object is compared with the "
+              "model's (and the oracle's) answer for that diagram alone and with a fresh render. The "
               "model is tied to /repo by reading back the artists of the live figure; 9 further diagrams are covered by the "
               "implementation-only oracle; fss, autocorr/autocov, rank, impact, mapimpact, maps are not covered.")
 TECHNIQUE = "Lean 4 proof over a model of each diagram's series; differential correspondence on the live figure's artists"
@@ -84,10 +110,13 @@ GRID = [0.0, 0.5, 1.0, 1.5, 2.0, 3.0]
 
 
 # ------------------------------------------------------------------ datasets
-def gen_dataset(rng, kind, F=None, big=False):
+def gen_dataset(rng, kind, F=None, big=False, band=False):
+    """band: the quantile columns are missing independently of each other, each with whole lead times (or locations /
+    times) knocked out, so that the quantile LINES of a diagram are missing at different x and the shaded band between
+    them has one-sided points"""
     F = F or rng.choice([1, 2, 2, 3])
     T = rng.randint(3, 5) if big else rng.randint(2, 4)
-    L = rng.randint(2, 3)
+    L = rng.randint(3, 5) if band else rng.randint(2, 3)
     X = rng.randint(3, 4) if big else rng.randint(1, 4)
     base = 1325376000.0
     times = [base + 86400 * i + rng.choice([0, 43200]) * (i == 1) for i in range(T)]
@@ -122,6 +151,15 @@ def gen_dataset(rng, kind, F=None, big=False):
             miss = np.isnan(arr([0.0]))
             for j, lev in enumerate([0.25, 0.5, 0.75]):
                 I["q@" + xr(lev)] = np.where(miss, np.nan, q[..., j])
+                if band:
+                    a = I["q@" + xr(lev)]
+                    if rng.random() < 0.5:
+                        a[np.isnan(arr([0.0]))] = np.nan                  # cells of its own
+                    for _ in range(rng.choice([0, 1, 1, 2])):
+                        dim = rng.choice([1, 1, 1, 0, 2])
+                        idx = [slice(None)] * 3
+                        idx[dim] = rng.randrange(sh[dim])
+                        a[tuple(idx)] = np.nan                            # a whole lead time (time, location) of its own
         elif kind == "ens":
             miss = np.isnan(arr([0.0]))
             for e in range(M):
@@ -135,7 +173,7 @@ EDGES_P = [[0.0, 0.25, 0.5, 0.75, 1.0], [0.0, 0.5, 1.0], [0.0, 0.125, 0.375, 0.8
 AXES = ["leadtime", "location", "time", "leadtimeday", "elev"]
 
 
-def gen_options(rng, name, ds):
+def gen_options(rng, name, ds, band=False):
     o = {}
     if name in ("reliability", "discrimination", "roc", "igncontrib", "murphy", "economicvalue", "bsdecomp"):
         o["r"] = [rng.choice([1.0, 2.0])]
@@ -183,8 +221,10 @@ def gen_options(rng, name, ds):
         o["x"] = rng.choice(AXES)
         if name == "standard":
             o["m"] = rng.choice(["mae", "bias", "rmse", "corr"])
-        elif ds.quantiles() and rng.random() < 0.4:
-            o["q"] = rng.choice([[0.5], [0.25, 0.75]])
+        elif ds.quantiles() and (band or rng.random() < 0.4):
+            o["q"] = rng.choice([[0.25, 0.75], [0.25, 0.5, 0.75], [0.75, 0.25]] if band else [[0.5], [0.25, 0.75]])
+        if band and rng.random() < 0.7:
+            o["x"] = "leadtime"
     elif name in ("qq", "scatter"):
         if rng.random() < 0.3:
             o["x"] = rng.choice(["leadtime", "location"])
@@ -204,7 +244,7 @@ def gen_options(rng, name, ds):
         o["r"] = rng.choice([[-3.0, -1.0, 0.0, 1.0, 3.0], [-2.0, 0.0, 2.0]])
     elif name in ("timeseries", "meteo"):
         if ds.quantiles() and rng.random() < 0.5:
-            o["q"] = rng.choice([[0.5], [0.25, 0.75]])
+            o["q"] = rng.choice([[0.25, 0.75], [0.75, 0.25], [0.25, 0.5]] if band else [[0.5], [0.25, 0.75]])
     return o
 
 
@@ -216,25 +256,130 @@ KIND_OF = {"det": ["obsfcst", "qq", "scatter", "cond", "freq", "hist", "sort", "
 BIG = ("reliability", "invreliability", "igncontrib", "discrimination", "bsdecomp")
 
 
-def _with_cases(rng, kind, F, big):
-    """a dataset in which at least two cases are valid for every field of every input"""
+def _with_cases(rng, kind, F, big, band=False):
+    """a dataset in which at least two cases are valid for every field of every input (band: for obs and fcst)"""
     for _ in range(20):
-        ds = gen_dataset(rng, kind, F=F, big=big)
-        if O.valid(ds, sorted(ds.inputs[0])).sum() >= 2:
+        ds = gen_dataset(rng, kind, F=F, big=big, band=band)
+        if O.valid(ds, ["obs", "fcst"] if band else sorted(ds.inputs[0])).sum() >= 2:
             return ds
     return ds
+
+
+# ------------------------------------------------------------------ util.fill called directly
+FILL_LO = [0.0, 0.5, 1.0]
+FILL_UP = [1.0, 2.0, 2.5]
+
+
+def _fill_op(x, lo, up):
+    return "fillpoly %s %s %s" % (xvec(x), xvec(lo), xvec(up))
+
+
+def gen_fill_ops(tier, rng):
+    """every missingness pattern of (lower, upper) for n <= 3 (quick) / n <= 4 (thorough), every pattern of
+    (x, lower, upper) for n <= 2, and random longer envelopes (NaNs at independent positions, sometimes in x, sometimes
+    an infinite value, lower == upper allowed)"""
+    import itertools
+    nan = float("nan")
+    nmax = 3 if tier == "quick" else 4
+    yield _fill_op([], [], [])
+    for n in range(1, nmax + 1):
+        x = [6.0 * i for i in range(n)]
+        for pat in itertools.product(range(4), repeat=n):
+            lo = [nan if p & 1 else FILL_LO[i % 3] for i, p in enumerate(pat)]
+            up = [nan if p & 2 else FILL_UP[(i + 1) % 3] for i, p in enumerate(pat)]
+            yield _fill_op(x, lo, up)
+    for n in (1, 2):
+        for pat in itertools.product(range(8), repeat=n):
+            if not any(p & 4 for p in pat):
+                continue
+            yield _fill_op([nan if p & 4 else 6.0 * i for i, p in enumerate(pat)],
+                           [nan if p & 1 else FILL_LO[i % 3] for i, p in enumerate(pat)],
+                           [nan if p & 2 else FILL_UP[(i + 1) % 3] for i, p in enumerate(pat)])
+    for _ in range(150 if tier == "quick" else 1500):
+        n = rng.randint(4, 14)
+        x0 = rng.choice([0.0, 734869.0, -3.0])
+        x = [x0 + rng.choice([0.25, 1.0, 6.0]) * i for i in range(n)]
+        if rng.random() < 0.2:
+            x = x[::-1]
+        pl, pu, px = rng.choice([0.1, 0.3, 0.6]), rng.choice([0.1, 0.3, 0.6]), rng.choice([0.0, 0.0, 0.15])
+        inf = rng.random() < 0.1
+        lo = [nan if rng.random() < pl else rng.choice(FILL_LO + ([-math.inf] if inf else [])) for _ in range(n)]
+        up = [nan if rng.random() < pu else rng.choice(FILL_UP + ([math.inf] if inf else [])) for _ in range(n)]
+        x = [nan if rng.random() < px else v for v in x]
+        yield _fill_op(x, lo, up)
 
 
 def extra_evidence(rows):
     per = {}
     for r in rows:
         a = r["op"].split(" ")
-        if a[0] != "bin":
-            per[a[1]] = per.get(a[1], 0) + 1
+        if a[0] not in ("bin", "fillpoly"):
+            for n in a[1].split("+"):
+                per[n] = per.get(n, 0) + 1
     return {"modelled": MODELLED, "oracle_only": ORACLE_ONLY, "unmodelled": UNMODELLED, "renders_per_diagram": per}
 
 
+# ------------------------------------------------------------------ several diagrams from one Data object
+SEQ_SEP = "@@"
+# get_scores cache keys (fields, input, axis, index) without -x:  qq scatter freq against: ((Obs, Fcst), none, None);
+# cond error taylor performance: ((Obs, Fcst), none, 0);  hist sort against: ((field,), none, None);  change droc: (.., all, None);
+# reliability roc discrimination igncontrib murphy economicvalue: ((Obs, Threshold t), none, None)
+SEQ_DET = ["qq", "scatter", "freq", "cond", "error", "taylor", "hist", "sort"]
+SEQ_DET_MORE = ["performance", "obsfcst", "standard", "against", "change", "droc"]
+SEQ_PROB = ["reliability", "roc", "discrimination", "bsdecomp", "marginal", "invreliability", "spreadskill", "pithist",
+            "qq", "obsfcst"]
+
+
+def enc_seq(items, ds):
+    return "diagseq %s %s %s" % ("+".join(n for n, _ in items), "+".join(D.enc_opts(o) for _, o in items), D.enc_ds(ds))
+
+
+def seq_items(op):
+    """-> ([(name, opts)], [the op line of each diagram drawn alone], dataset)"""
+    a = op.split(" ")
+    names, opts = a[1].split("+"), a[2].split("+")
+    singles = [" ".join(["diag", n, o] + a[3:]) for n, o in zip(names, opts)]
+    return [(n, D.dec_opts(o)) for n, o in zip(names, opts)], singles, D.dec_op(singles[0])[3]
+
+
+def gen_seq_ops(tier, rng):
+    """every ordered pair (also a diagram twice) of the menu SEQ_DET without -x (three groups of diagrams that fetch the
+    same get_scores key, see above; hist and sort on the same field); then random sequences of 2-3 diagrams with their
+    usual random options (det and prob menus; the prob diagrams share (Obs, Threshold t) keys)"""
+    def opts_shared(name, ds):
+        o = gen_options(rng, name, ds)
+        o.pop("x", None)
+        if name == "scatter" and "r" not in o:
+            o["simple"] = True
+        return o
+    for rep in range(1 if tier == "quick" else 6):
+        for n1 in SEQ_DET:
+            for n2 in SEQ_DET:
+                ds = _with_cases(rng, "det", None, False)
+                o1, o2 = opts_shared(n1, ds), opts_shared(n2, ds)
+                if "m" in o1 and "m" in o2:
+                    o2["m"] = o1["m"]
+                yield enc_seq([(n1, o1), (n2, o2)], ds)
+    for _ in range(30 if tier == "quick" else 300):
+        kind = rng.choice(["det", "det", "prob"])
+        menu = SEQ_DET + SEQ_DET + SEQ_DET_MORE if kind == "det" else SEQ_PROB
+        names = [rng.choice(menu) for _ in range(rng.choice([2, 3, 3]))]
+        ds = _with_cases(rng, kind, 2 if "against" in names else None, any(n in BIG for n in names))
+        t = rng.choice([1.0, 2.0])
+        items = []
+        for n in names:
+            o = gen_options(rng, n, ds) if rng.random() < 0.5 or kind == "prob" else opts_shared(n, ds)
+            if kind == "prob" and "r" in o and n in ("reliability", "roc", "discrimination", "bsdecomp"):
+                o["r"] = [t]                    # the same threshold: the same (Obs, Threshold) key
+            items.append((n, o))
+        yield enc_seq(items, ds)
+
+
 def gen_ops(tier, rng):
+    for op in gen_fill_ops(tier, rng):
+        yield "diag.fill", op
+    for op in gen_seq_ops(tier, rng):
+        yield "diag.sequence", op
     reps = 16 if tier == "quick" else 130
     for kind in ("det", "prob", "ens"):
         for name in KIND_OF[kind]:
@@ -243,11 +388,20 @@ def gen_ops(tier, rng):
                 ds = _with_cases(rng, kind, F, name in BIG)
                 o = gen_options(rng, name, ds)
                 yield "diag.artists", D.enc_op(name, o, ds)
-    for _ in range(30 if tier == "quick" else 300):
+    # the shaded band between quantile lines that are missing at different x (obsfcst -q, meteo)
+    for name in ("obsfcst", "meteo"):
+        for _ in range(reps):
+            ds = _with_cases(rng, "prob", 1 if name == "meteo" else None, False, band=True)
+            o = gen_options(rng, name, ds, band=True)
+            yield "diag.artists", D.enc_op(name, o, ds)
+    for k in range(30 if tier == "quick" else 300):
         name = rng.choice(["reliability", "roc", "qq", "obsfcst", "pithist", "cond", "taylor", "hist", "marginal", "standard"])
+        band = False
+        if k % 3 == 0:
+            name, band = rng.choice(["obsfcst", "meteo"]), True
         kind = "prob" if name in KIND_OF["prob"] else "det"
-        ds = _with_cases(rng, kind, None, name in BIG)
-        o = gen_options(rng, name, ds)
+        ds = _with_cases(rng, kind, 1 if name == "meteo" else None, name in BIG, band=band)
+        o = gen_options(rng, name, ds, band=band)
         if o.get("x") in ("location", "elev"):
             o["x"] = "leadtime"
         yield "diag.cli", D.enc_op(name, o, ds, head="diagcli")
@@ -271,6 +425,15 @@ def impl(op):
             xx, yy = verif.util.bin(x, y, edges)
             _, nn = verif.util.bin(x, np.ones(len(x)), edges, func=np.sum)
         return "%s:%s:%s" % (xvec(xx), xvec(yy), xvec(np.nan_to_num(nn)))
+    if a[0] == "fillpoly":
+        recs = D.fill_direct(*(from_xvec(t) for t in a[1:4]))
+        if len(recs) > 1:
+            return "POLYGONS:%d" % len(recs)
+        return "%s:%s" % (xvec(recs[0]["x"]), xvec(recs[0]["y"])) if recs else "-"
+    if a[0] == "diagseq":
+        items, _, ds = seq_items(op)
+        return SEQ_SEP.join(r if isinstance(r, str) else D.show(D.select(n, r[0], r[1]))
+                            for (n, _), r in zip(items, D.render_seq(items, ds)))
     head, name, o, ds = D.dec_op(op)
     try:
         recs, names = (D.render_cli if head == "diagcli" else D.render)(name, o, ds)
@@ -295,8 +458,10 @@ def _venc(cols):
 
 def lean_op(op):
     a = op.split(" ")
-    if a[0] == "bin":
+    if a[0] in ("bin", "fillpoly"):
         return op
+    if a[0] == "diagseq":       # the model is a pure function of the dataset: each diagram as if it were alone
+        return "diagseq " + " // ".join(lean_op(sop) for sop in seq_items(op)[1])
     import warnings
     import verif.field as vf
     import verif.axis
@@ -386,6 +551,13 @@ def cmp(op, impl_out, model_out):
     if a[0] == "bin":
         return all(_vec_close(from_xvec(x), from_xvec(y)) for x, y in zip(impl_out.split(":"), model_out.split(":"))) \
             and impl_out.count(":") == model_out.count(":")
+    if a[0] == "fillpoly":
+        return impl_out == model_out        # vertices are copied, not computed: exact
+    if a[0] == "diagseq":
+        A, B, singles = impl_out.split(SEQ_SEP), model_out.split(SEQ_SEP), seq_items(op)[1]
+        if not len(A) == len(B) == len(singles):
+            return impl_out.startswith("EXC:")
+        return all(cmp(sop, x, y) for sop, x, y in zip(singles, A, B))
     if impl_out.startswith("EXC:") or impl_out.startswith("EXIT:"):
         return True             # the diagram crashed: outside the model, the oracle reports it
     if impl_out.startswith("E") or model_out.startswith("E"):
@@ -417,6 +589,10 @@ def judge(op, impl_out, spec_out):
     a = op.split(" ")
     if a[0] == "bin":
         return judge_bin(a, impl_out)
+    if a[0] == "fillpoly":
+        return judge_fill(a, impl_out)
+    if a[0] == "diagseq":
+        return judge_seq(op, impl_out)
     head, name, o, ds = D.dec_op(op)
     sig = {"diagram": name}
     if impl_out.startswith("EXC:") or impl_out.startswith("EXIT:") or impl_out == "ERR":
@@ -452,6 +628,12 @@ def judge(op, impl_out, spec_out):
     if bad is None:
         return None
     g, w, okx, oky, okw = bad
+    if g[1] == "poly":
+        nanv = sum(1 for u, v in zip(g[3], g[4]) if u != u or v != v)
+        return (dict(sig, kind="band"), "%s %s: the shaded band is the polygon x=%s y=%s (%d vertices, %d with a NaN "
+                "coordinate); the lower envelope's valid points forward and the upper envelope's valid points backward "
+                "are x=%s y=%s (%d vertices)" % (name, a[2], _fmt(g[3]), _fmt(g[4]), len(g[3]), nanv, _fmt(w[3]), _fmt(w[4]),
+                                                len(w[3])))
     kind = "definition"
     bv = O.binned_values(name, o, ds)
     if name == "pithist" and oky:
@@ -468,6 +650,71 @@ def judge(op, impl_out, spec_out):
     return (dict(sig, kind=kind), "%s %s: series '%s' drawn x=%s y=%s%s, definition gives x=%s y=%s%s" %
             (name, a[2], g[2], _fmt(g[3]), _fmt(g[4]), " w=" + _fmt(g[5]) if g[5] else "", _fmt(w[3] or []), _fmt(w[4]),
              " w=" + _fmt(w[5]) if len(w) > 5 and w[5] else ""))
+
+
+def _first_diff(got, alone):
+    try:
+        A, B = D.parse(got), D.parse(alone)
+    except (ValueError, IndexError):
+        return "'%s' / alone '%s'" % (got[:120], alone[:120])
+    for g, w in zip(A, B):
+        if g != w and not (g[:3] == w[:3] and _nan_same(g[3], w[3]) and _nan_same(g[4], w[4])):
+            return "series '%s' x=%s y=%s / alone: series '%s' x=%s y=%s" % (g[2], _fmt(g[3]), _fmt(g[4]), w[2], _fmt(w[3]), _fmt(w[4]))
+    return "%d series / alone: %d series" % (len(A), len(B))
+
+
+def _nan_same(u, v):
+    return len(u) == len(v) and all(p == q or (p != p and q != q) for p, q in zip(u, v))
+
+
+def judge_seq(op, impl_out):
+    """diagrams drawn one after the other from one Data object: each must be (a) the documented series of the dataset
+    and (b) identical to what the same diagram draws from a freshly built Data object"""
+    items, singles, ds = seq_items(op)
+    names = [n for n, _ in items]
+    parts = impl_out.split(SEQ_SEP)
+    if len(parts) != len(items):
+        return ({"diagram": "+".join(names), "kind": "exception"}, "sequence %s ended in %s" % ("+".join(names), impl_out[:200]))
+    for i, ((name, o), sop) in enumerate(zip(items, singles)):
+        alone = impl(sop)
+        if parts[i] != alone:
+            return ({"diagram": name, "kind": "history-dependence", "position": i, "after": "+".join(names[:i])},
+                    "%s %s drawn as diagram %d of the sequence [%s] on one Data object differs from the same diagram drawn "
+                    "from a freshly built Data object: %s" %
+                    (name, op.split(" ")[2].split("+")[i], i + 1, ", ".join(names), _first_diff(parts[i], alone)))
+        v = judge(sop, parts[i], None)
+        if v is not None:
+            return (dict(v[0], position=i), "diagram %d of the sequence [%s]: %s" % (i + 1, ", ".join(names), v[1]))
+    return None
+
+
+def judge_fill(a, impl_out):
+    """util.fill: the polygon in the axes runs over the valid (x, lower) points forward, then over the valid (x, upper)
+    points backward — each envelope dropping its own missing points — and has no NaN vertex; nothing is drawn when no
+    point is valid.  Exact comparison (the vertices are copies of the arguments)."""
+    x, lo, up = (from_xvec(t) for t in a[1:4])
+    sig = {"diagram": "util.fill"}
+    if impl_out.startswith("E") or impl_out.startswith("POLYGONS"):
+        return (dict(sig, kind="exception"), "util.fill(%s, %s, %s) ended in %s" % (a[1], a[2], a[3], impl_out))
+    X, Y = ([], []) if impl_out == "-" else (from_xvec(t) for t in impl_out.split(":"))
+    same = lambda u, v: len(u) == len(v) and all(p == q for p, q in zip(u, v))       # NaN equals nothing
+    nanv = sum(1 for u, v in zip(X, Y) if u != u or v != v)
+    # the rule, stated independently of diagoracle.band_polygon: index lists first, then the vertices
+    il = [i for i in range(len(x)) if not math.isnan(x[i]) and not math.isnan(lo[i])]
+    iu = [i for i in range(len(x)) if not math.isnan(x[i]) and not math.isnan(up[i])]
+    wx = [x[i] for i in il] + [x[i] for i in iu[::-1]]
+    wy = [lo[i] for i in il] + [up[i] for i in iu[::-1]]
+    ox, oy = O.band_polygon(x, lo, up)
+    if not (same(wx, ox) and same(wy, oy)):
+        return ({"kind": "oracle-crash"}, "the two statements of the band rule disagree on %s" % " ".join(a))
+    if nanv == 0 and same(X, wx) and same(Y, wy):
+        return None
+    one = [i for i in range(len(x)) if not math.isnan(x[i]) and math.isnan(lo[i]) != math.isnan(up[i])]
+    kind = "band-nan-vertex" if nanv else "band-vertices"
+    return (dict(sig, kind=kind), "util.fill(x=%s, lower=%s, upper=%s): polygon x=%s y=%s has %d vertices (%d with a NaN "
+            "coordinate); the %d valid lower points forward + the %d valid upper points backward are x=%s y=%s "
+            "(points missing in one envelope only: indices %s)" %
+            (a[1], a[2], a[3], _fmt(X), _fmt(Y), len(X), nanv, len(il), len(iu), _fmt(wx), _fmt(wy), one))
 
 
 def judge_bin(a, impl_out):
@@ -498,4 +745,8 @@ def judge_bin(a, impl_out):
 def nontrivial(op, out):
     if out.startswith("E") or out == "-":
         return False
+    if op.startswith("fillpoly "):
+        return True             # a polygon was drawn
+    if op.startswith("diagseq "):
+        return all(nontrivial("diag", p) for p in out.split(SEQ_SEP))
     return any(t not in ("nan", "-", "") for p in out.split(";") for t in ",".join(p.split(":")[3:]).split(","))
